@@ -175,6 +175,29 @@ pub fn run(c: &Case) -> Outcome {
             ),
         }
     }
+    // every further recipient opens the message with its secret alone
+    for idx in 1..cfg.esks.len() {
+        // several SKESK v4 packets: one password may make another packet decrypt to a plausible
+        // key (no integrity); that defect is recorded under C18 and is not re-reported here
+        if matches!(cfg.enc, Enc::V1(_)) && cfg.esks.iter().filter(|e| matches!(e, EskSpec::Password(_))).count() > 1 {
+            break;
+        }
+        o.evals += 1;
+        let parsed = if cfg.armor {
+            pgp::composed::Message::from_armor(&bytes[..]).map(|x| x.0)
+        } else {
+            pgp::composed::Message::from_bytes(&bytes[..])
+        };
+        let r = parsed.and_then(|m| msg::open_recipient(cfg, m, idx)).map_err(|e| e.to_string()).and_then(|mut m| msg::pull(&mut m, Pull::ToEnd).map_err(|e| e.to_string()));
+        match r {
+            Ok(data) if data == payload => {}
+            Ok(data) => o.push("C01:payload-differs", format!("{} n={} opened by recipient {idx} of {:?}: read {} bytes", cfg_sig(cfg), c.n, cfg.esks, data.len())),
+            Err(e) => o.push(
+                format!("C01:reader-rejects:{}", e.split(':').next().unwrap_or("")),
+                format!("{} n={} opened by recipient {idx} of {:?}: {e}", cfg_sig(cfg), c.n, cfg.esks),
+            ),
+        }
+    }
     // no other key verifies
     if !cfg.signers.is_empty() && c.extra_pulls {
         let decoy = common::cert(KeyKind::Ed25519V4, 77);
@@ -238,6 +261,40 @@ pub fn spine_cfgs() -> Vec<MsgCfg> {
                                 partial_exp: 9,
                             });
                         }
+                    }
+                }
+            }
+        }
+    }
+    v
+}
+
+/// 0..8 signers x AEAD chunk sizes 64 / 128 / 256 x known-length / streamed source x lengths.
+pub fn many_signer_cfgs() -> Vec<(MsgCfg, usize)> {
+    let pools: [[(KeyKind, u8); 8]; 2] = [
+        [(KeyKind::Ed25519V4, 0), (KeyKind::EcdsaP256V4, 0), (KeyKind::Ed25519LegacyV4, 0), (KeyKind::EcdsaK256V4, 0), (KeyKind::EcdsaP384V4, 2), (KeyKind::EcdsaP521V4, 1), (KeyKind::Ed25519V6, 0), (KeyKind::Ed448V6, 1)],
+        [(KeyKind::Ed25519V6, 1), (KeyKind::EcdsaP256V6, 0), (KeyKind::Ed448V6, 1), (KeyKind::Ed25519V4, 1), (KeyKind::EcdsaP256V4, 3), (KeyKind::EcdsaP384V4, 1), (KeyKind::EcdsaK256V4, 0), (KeyKind::Ed25519LegacyV4, 0)],
+    ];
+    let mut v = Vec::new();
+    for pool in &pools {
+        for count in 0..=8usize {
+            for chunk in 0..=2u8 {
+                for source in [0u8, 1] {
+                    for n in [0usize, 13, 200, 9000] {
+                        v.push((
+                            MsgCfg {
+                                source,
+                                compression: 0,
+                                enc: Enc::V2(7, 1 + (count as u8 + chunk) % 3, chunk),
+                                esks: vec![EskSpec::Password(0)],
+                                signers: pool[..count].to_vec(),
+                                text: false,
+                                armor: false,
+                                checksum: true,
+                                partial_exp: if source == 0 { 0 } else { 9 },
+                            },
+                            n,
+                        ));
                     }
                 }
             }
@@ -524,6 +581,26 @@ pub fn check(ctx: &Ctx) {
             }
         }
     }
+    // 0..8 signers in front of a known-length literal under the smallest AEAD chunks: the one-pass
+    // packets push the literal header across every offset of a chunk
+    for (cfg, n) in many_signer_cfgs() {
+        sweep.push(Case { cfg, n, extra_pulls: false, v1_streaming: false });
+    }
+    // mixed recipient sets: every recipient opens the message alone
+    for n in [0usize, 600] {
+        for (enc, keys) in [(Enc::V1(9), &v4_keys[..]), (Enc::V2(9, 2, 0), &v6_keys[..])] {
+            for sets in [
+                vec![EskSpec::Key(keys[0], false), EskSpec::Password(0)],
+                vec![EskSpec::Password(1), EskSpec::Key(keys[1], true)],
+                vec![EskSpec::Key(keys[0], false), EskSpec::Key(keys[1], false), EskSpec::Key(keys[2], true)],
+                vec![EskSpec::Key(keys[2], true), EskSpec::Password(2), EskSpec::Key(keys[0], false)],
+            ] {
+                let mut cfg = base(enc);
+                cfg.esks = sets;
+                sweep.push(Case { cfg, n, extra_pulls: false, v1_streaming: false });
+            }
+        }
+    }
     // the builder options set BEFORE the transition to an encrypting builder (source + 10)
     for n in [0usize, 1, 100, 600, 5000] {
         for enc in [Enc::V1(7), Enc::V2(7, 2, 0), Enc::V2(9, 1, 6)] {
@@ -570,7 +647,7 @@ pub fn check(ctx: &Ctx) {
     ctx.run_space(
         "dimension_sweeps",
         true,
-        "each remaining builder dimension swept completely against a base configuration: 11 CFB ciphers; 3 ciphers x 3 AEAD modes x chunk-size octets (quick <= 64 KiB, thorough all 17) with lengths around 0..3 chunks; partial chunk sizes 2^9..2^16 (thorough 2^20) with lengths k*chunk + header-size offsets; 10 signer key kinds x hashes x binary/text; 3 mixed-version signers; ESK sets (each public-key algorithm addressed/anonymous, 1..3 passwords x 3 salted S2K kinds, v3/v4 and v6 forms); from_file source; armor with and without checksum; every option set before instead of after the seipd_v1 / seipd_v2 transition (text mode, compression, partial size, signers - the signatures must have the requested type)",
+        "each remaining builder dimension swept completely against a base configuration: 11 CFB ciphers; 3 ciphers x 3 AEAD modes x chunk-size octets (quick <= 64 KiB, thorough all 17) with lengths around 0..3 chunks; partial chunk sizes 2^9..2^16 (thorough 2^20) with lengths k*chunk + header-size offsets; 10 signer key kinds x hashes x binary/text; 3 mixed-version signers; 0..8 signers x AEAD chunks of 64 / 128 / 256 octets x known-length and streamed sources; ESK sets (each public-key algorithm addressed/anonymous, 1..3 passwords x 3 salted S2K kinds, mixed key / password sets, v3/v4 and v6 forms; every recipient opens the message with its secret alone); from_file source; armor with and without checksum; every option set before instead of after the seipd_v1 / seipd_v2 transition (text mode, compression, partial size, signers - the signatures must have the requested type)",
         sweep.into_par_iter(),
         run,
     );
